@@ -16,6 +16,9 @@ OBVIOUS_REDIRECTS_RE = re.compile(
     % r"(?:redirect(?:_to)?|target|redir|next|link|orig|goto|url|[luq])",
     re.I,
 )
+# NOTE: the "q" key only is a redirection on google's "/url" route (wherever
+# the item stands in the query) and on "/redirect" routes
+Q_REDIRECT_ROUTE_RE = re.compile(r"/url\?(?:[^#]*(?:[&;]|%3B))?q=|/redirect", re.I)
 REDIRECTION_DOMAINS_RE = re.compile(
     r"(?:\.ampproject\.org(?::\d+)?/[cv]/(?:s/)?|bc\.marfeelcache\.com(?::\d+)?/amp/|bc\.marfeel\.com(?::\d+)?/)",
     re.I,
@@ -59,7 +62,7 @@ def infer_redirection(url, recursive=True):
 
         if obvious_redirect_match is not None:
             if obvious_redirect_match.group(1) == "q":
-                if "/url?q=" not in url and "/redirect" not in url:
+                if not Q_REDIRECT_ROUTE_RE.search(url):
                     return original_url
 
             potential_target = unquote(obvious_redirect_match.group(2))
